@@ -44,7 +44,7 @@ PROBES = ["reentrant_close_during_render", "render_fault_in_first_animation_fram
           "close_during_dummy_frame_state", "caller_owned_data_left_unfinalized",
           "finalized_by_garbage_collection", "stopiteration_from_definite_source",
           "double_close", "double_finalize", "interrupted_draw_write", "iterator_exhausted",
-          "setting_changed_mid_iteration", "keyboardinterrupt_in_render"]
+          "setting_changed_mid_iteration", "keyboardinterrupt_in_render", "finalizer_raised"]
 COMPONENTS = {
     "real": ["RenderData.finalize/__del__", "Renderable._init_render_/draw/render/__str__/"
              "__iter__/_animate_", "RenderIterator (__init__, _from_render_data_, __next__, "
@@ -73,6 +73,7 @@ def run(ch, ctx, fault=None):
     k, vt, out = w.k, w.vt, w.out
     k.log_seams = False
     hooks = simrenderable.Hooks(k)
+    hooks.finalize_seam = True     # a render class's own finalizer may fail
     owned = {}       # token -> RenderData kept by the harness *as the owning caller*
     released = {}    # token -> iteration RenderData its owner has already finalized
     expect0 = set()  # tokens that must still be un-finalized (caller-owned, not yet released)
@@ -166,6 +167,7 @@ def run(ch, ctx, fault=None):
             exc = None
             site = op
             r = ch.pick("r", rends)
+            lv = None
             try:
                 if op == "str":
                     desc = "str(%r)" % r
@@ -425,8 +427,10 @@ def run(ch, ctx, fault=None):
                         continue
                     tok = ch.pick("owned", cands)
                     desc = "owner finalizes render data #%d" % tok
-                    owned[tok].finalize()
-                    expect0.discard(tok)
+                    try:
+                        owned[tok].finalize()
+                    finally:
+                        expect0.discard(tok)
                     must_be_final(tok, "owner finalized", "finalize")
                     owned[tok].finalize()
                     ctx.probe("double_finalize")
@@ -440,7 +444,7 @@ def run(ch, ctx, fault=None):
                     lv = live.pop(idx)
                     desc = "drop last reference to %s, collect" % lv.desc
                     tok, owns, was_closed = lv.token, lv.owns, lv.closed
-                    del lv
+                    lv = None
                     gc.collect()
                     ctx.nontrivial = True
                     if owns:
@@ -461,8 +465,20 @@ def run(ch, ctx, fault=None):
             ctx.op("%s%s" % (desc, " -> raised %r" % (exc,) if exc is not None else ""))
             key.append((desc, type(exc).__name__ if exc is not None else None))
             fault_here = k.fault_done and not fired0
+            finalizer_failed = fault_here and fault["kind"] == "finalize"
+            if finalizer_failed:
+                ctx.probe("finalizer_raised")
+                # the render class's own finalizer failed: whatever object was being finalized
+                # is in no documented state any more - it is dropped; the token bookkeeping
+                # (the finalizer ran exactly once per data object) still has to come out right
+                if lv is not None and lv in live:
+                    live.remove(lv)
+                lv = None
+                gc.collect()
             if exc is not None:
-                if op in ("str", "render", "init_render_final"):
+                owns_after_init = op == "draw" and fault_here and not finalizer_failed and \
+                    type(exc).__name__ != "RenderSizeOutofRangeError"
+                if op in ("str", "render", "init_render_final") or owns_after_init:
                     # these operations own the data (finalize=True): it must be final when they
                     # fail, not whenever the traceback happens to be collected (exc is still
                     # alive here and keeps the frames - and the data - referenced)
@@ -485,7 +501,8 @@ def run(ch, ctx, fault=None):
                             ctx.probe("stopiteration_from_definite_source")
                     else:
                         ctx.probe("interrupted_draw_write")
-                if op in ("next", "next_many") and isinstance(exc, Exception):
+                if op in ("next", "next_many") and isinstance(exc, Exception) \
+                        and not finalizer_failed:
                     # (an interrupt is not "an error": the iterator only has to end up
                     # finalized exactly once, which the end-of-history count decides)
                     iterator_closed_checks(lv, "next.error")
@@ -511,8 +528,13 @@ def run(ch, ctx, fault=None):
         # end of history: release everything, collect, count
         ctx.extra["renders"] = k.counts.get("render", 0)
         ctx.extra["writes"] = k.counts.get("out.write", 0)
+        ctx.extra["finalizes"] = k.counts.get("finalize", 0)
         for tok in sorted(owned):
-            owned[tok].finalize()
+            try:
+                owned[tok].finalize()
+            except RuntimeError:
+                if not (fault and fault["kind"] == "finalize"):
+                    raise
         owned.clear()
         released.clear()
         live.clear()
@@ -534,4 +556,6 @@ def faults(ctx, ch):
         out.append({"kind": "render", "k": kk, "when": "before", "exc": "KeyboardInterrupt"})
     for kk in range(1, ctx.extra.get("writes", 0) + 1):
         out.append({"kind": "out.write", "k": kk, "when": "before", "exc": "KeyboardInterrupt"})
+    for kk in range(1, ctx.extra.get("finalizes", 0) + 1):
+        out.append({"kind": "finalize", "k": kk, "when": "before", "exc": "RuntimeError"})
     return out
